@@ -83,12 +83,12 @@ def make(i, base_seed, tier):
             ev.append(["req", s[1], VIAS[s[2]]] if s[0] == "req" else list(s))
         return {"seed": seed, "events": ev, "kind": "small_random"}
     ids = rng.sample(range(1, 256), rng.randint(2, 12))
-    vias = [0o4444, 0o4444, 0o1, 0o2, 0o21, 0o321, 0o5, 0o15]
+    vias = [0o4444, 0o4444, 0o1, 0o2, 0o21, 0o321, 0o5, 0o15, 0o44, 0o444, 0o4, 0o344]
     ev = []
     for _ in range(rng.randint(5, 30)):
         k = rng.random()
         if k < 0.6:
-            ev.append(["req", rng.choice(ids), rng.choice(vias[:rng.choice([2, 4, 8])])])
+            ev.append(["req", rng.choice(ids), rng.choice(vias[:rng.choice([2, 4, 8, 12])])])
         elif k < 0.75:
             ev.append(["release", rng.choice(ids)])
         else:
